@@ -13,7 +13,7 @@ import (
 var seedfix4 = map[string]func(*Ctx){
 	"C01": seedfix4C01, "C02": seedfix4C02, "C05": seedfix4C05, "C07": seedfix4C07, "C08": seedfix4C08,
 	"C10": seedfix4C10, "C23": seedfix4C23, "C27": seedfix4C27,
-	"C11": seedfix4C11, "C17": seedfix4C17, "C18": seedfix4C18, "C28": seedfix4C28,
+	"C11": seedfix4C11, "C21": seedfix4C21, "C17": seedfix4C17, "C18": seedfix4C18, "C28": seedfix4C28,
 	"C30": seedfix4C30, "C32": seedfix4C32, "C34": seedfix4C34, "C35": seedfix4C35,
 	"C36": seedfix4C36, "C38": seedfix4C38, "C39": seedfix4C39, "C40": seedfix4C40,
 	"C42": seedfix4C42, "C43": seedfix4C43,
@@ -799,6 +799,79 @@ func seedfix4C30(c *Ctx) {
 	}
 	r.Floor("R-NO-POOLED-BYTES", 1)
 	r.Floor("R-SHA-WHENEVER-PRESENT", 1)
+}
+
+// ---------------------------------------------------------------- C21
+
+func seedfix4C21(c *Ctx) {
+	u, r := c.U, c.R
+	// R-EXCEPTION-BEFORE-MISMATCH: a response whose schema differs from the declaration is
+	// rejected as schema drift only after its batches were searched for an exception envelope
+	// (the server frames pre-stream failures — a failed init, a refused request — on an empty
+	// schema; they must surface as the typed error they carry).
+	fn := c.Fn("R-EXCEPTION-BEFORE-MISMATCH", "(*HttpClient).parseIPCStream")
+	if fn == nil {
+		return
+	}
+	// a "read" is reader.Next() itself or a root-package helper that loops over it
+	readsStream := func(f *ssa.Function) bool {
+		return f != nil && len(u.Calls(f, HasSuffix("ipc.Reader).Next"))) > 0
+	}
+	returnsException := func(f *ssa.Function) bool {
+		return f != nil && len(u.Calls(f, Is("rpcErrorFromMetadata"))) > 0
+	}
+	isNext := func(in ssa.Instruction) bool {
+		ci, ok := in.(*ssa.Call)
+		if !ok {
+			return false
+		}
+		if strings.HasSuffix(u.CalleeName(&ci.Call), "ipc.Reader).Next") {
+			return true
+		}
+		sc := ci.Call.StaticCallee()
+		return sc != nil && sc.Pkg != nil && sc.Pkg.Pkg == u.Root.Types && sc != fn && readsStream(sc)
+	}
+	n := 0
+	Instrs(fn, func(in ssa.Instruction) {
+		ret, ok := in.(*ssa.Return)
+		if !ok || len(ret.Results) != 2 || isNilConst(ReturnValue(ret, 1)) {
+			return
+		}
+		mismatch := false
+		for _, g := range GuardsAt(in.Block()) {
+			if call, isCall := g.Cond.(*ssa.Call); isCall && !g.Truth && u.CalleeName(&call.Call) == "clientSchemasEqual" {
+				mismatch = true
+			}
+		}
+		if !mismatch {
+			return
+		}
+		// the typed-exception return inside the mismatch branch is the point of the scan
+		if call := rootCall(ReturnValue(ret, 1)); call != nil && (u.CalleeName(&call.Call) == "rpcErrorFromMetadata" || returnsException(call.Call.StaticCallee())) {
+			return
+		}
+		n++
+		first := fn.Blocks[0].Instrs[0]
+		_, direct := ReachWithout(fn, first, isInstr(in), isNext)
+		r.Check(!direct, "R-EXCEPTION-BEFORE-MISMATCH", "parseIPCStream|mismatch@"+exitKey(u, in.Block()), u.Pos(in.Pos()), "schema drift is reported only after the batches were read", "parseIPCStream rejects a differing schema without reading a batch: a server exception framed on the empty schema (failed stream init, refused request) surfaces as a 'response schema mismatch' TypeError instead of the typed error it carries")
+	})
+	if n == 0 {
+		r.Undec("R-EXCEPTION-BEFORE-MISMATCH", "parseIPCStream", u.Pos(fn.Pos()), "no schema-mismatch refusal found")
+	} else {
+		scan := false
+		for _, cs := range u.Calls(fn, nil) {
+			if cs.Callee != "rpcErrorFromMetadata" && !returnsException(cs.Common().StaticCallee()) {
+				continue
+			}
+			for _, g := range GuardsAt(cs.Instr.Block()) {
+				if call, isCall := g.Cond.(*ssa.Call); isCall && !g.Truth && u.CalleeName(&call.Call) == "clientSchemasEqual" {
+					scan = true
+				}
+			}
+		}
+		r.Check(scan, "R-EXCEPTION-BEFORE-MISMATCH", "parseIPCStream|typed-exception", u.Pos(fn.Pos()), "an exception envelope found on a differing schema is returned as the typed error", "the differing-schema branch never returns rpcErrorFromMetadata(...)")
+	}
+	r.Floor("R-EXCEPTION-BEFORE-MISMATCH", 2)
 }
 
 // ---------------------------------------------------------------- C32
